@@ -14,23 +14,23 @@ import (
 
 // Pkt is one long-header packet of a client datagram as an outside observer reads it.
 type Pkt struct {
-	Kind    wiretap.Kind
-	Version uint32
-	First   byte // first byte after removing header protection
-	DCID    []byte
-	SCID    []byte
-	Token   []byte
-	Start   int
-	End     int
-	HdrLen  int // bytes up to and including the packet number
-	Opened  bool
-	Hint    string // which packet number hint opened the packet: "expected", "plain", "prev"
-	Err     string
-	PN      uint64
-	PNLen   int
-	Trunc   uint64 // the packet number bytes as they are on the wire
-	Payload []byte
-	Frames  []wiretap.Frame
+	Kind     wiretap.Kind
+	Version  uint32
+	First    byte // first byte after removing header protection
+	DCID     []byte
+	SCID     []byte
+	Token    []byte
+	Start    int
+	End      int
+	HdrLen   int // bytes up to and including the packet number
+	Opened   bool
+	Hint     string // which packet number hint opened the packet: "expected", "plain", "prev"
+	Err      string
+	PN       uint64
+	PNLen    int
+	Trunc    uint64 // the packet number bytes as they are on the wire
+	Payload  []byte
+	Frames   []wiretap.Frame
 	FrameErr string
 }
 
